@@ -512,9 +512,12 @@ example : CrashAt (fun (s : Nat) (c : Nat) => s + c) (init 0) [DEvent.commit 5 f
     (runMicros (fun s c => s + c) (init 0) ((stepsOf (DEvent.commit 5 false)).take 1)) :=
   CrashAt.inEvent _ _ _ 1
 
-/-! ### constants and encodings regenerated from the Go tree, pinned to the model -/
+/-! ### persisted formats regenerated from the Go tree, pinned to the model
 
-theorem pin_treapNodeOverhead : Generated.C05.treapNodeOverhead = (nodeFieldsSize : Int) := by decide
+Only values that end up on disk are pinned (key names, bucket ids, row layouts, key encodings, CRC).
+Tuning constants (handle limit, cache size, flush interval, file size limit, memory estimates) are
+neither pinned nor observed. -/
+
 theorem pin_blockLocSize :
     Generated.C05.blockLocSize = ((serializeBlockLoc 0 0 0).length : Int) := by decide
 theorem pin_bucketIds :
@@ -527,7 +530,6 @@ theorem pin_names :
     Generated.C05.curBucketIDKeyName = toInts curBucketIDKeyName ∧
     Generated.C05.blockIdxBucketName = toInts blockIdxBucketName ∧
     Generated.C05.writeLocKeyName = toInts writeLocKeyName := by decide
-theorem pin_maxBlockFileSize : Generated.C05.maxBlockFileSize = 512 * 1024 * 1024 := by decide
 set_option maxRecDepth 20000 in
 /-- the write-cursor row (including its CRC-32C) and the location row as the Go code serializes them -/
 theorem pin_writeRow :
